@@ -413,3 +413,110 @@ def run(ctx):
     rule_c(ctx, R, sector, scan_site)
     from .kernels import run_c06d
     run_c06d(ctx)
+    rule_e(ctx, R)
+    rule_f(ctx, R, sector, scan_site)
+
+
+def rule_e(ctx, R):
+    """The selection probabilities divide by ω(g∖e): an accepted table must not contain ω = 0 for a proper non-empty subset."""
+    from ..f64facts import _cond_classes, NEG, ZERO, POS
+    from .c05 import table_builder
+    ctx.rule("C06-e", "the divisor ω(g∖e) of the selection probabilities is never zero in an accepted table: the builder's rejection test sends "
+                      "the classes {negative, zero} of the generalised dod to Err and {positive} to acceptance (`<= 0`, not `< 0`)")
+    try:
+        bs, site = table_builder(R)
+    except RoleLost as e:
+        return ctx.lost("C06-e", str(e))
+    tb = site[2]
+    v = Vals(tb)
+    errs = pat.result_ctor_sites(tb, "Err")
+    if len(errs) != 1:
+        return ctx.lost("C06-e", "the single Err of the table builder (found %d)" % len(errs), tb.path)
+    ebi = errs[0][0]
+    tcd = cfg.transitive_control_deps(tb, acyclic=True)
+    found = None
+    for (sb, tgt) in sorted(tcd[ebi]):
+        t = tb.blocks[sb]["term"]
+        c = v.classify_bool(t["discr"])
+        if not c or c[0] != "binop":
+            continue
+        rv = c[1]
+        from ..f64facts import const_f64
+        for side in ("a", "b"):
+            other = "b" if side == "a" else "a"
+            if const_f64(rv[other]) is not None and rv[side]["k"] in ("copy", "move"):
+                x = v.root(rv[side])
+                cc = _cond_classes(v, c, x)
+                if cc is None:
+                    continue
+                te, fe = bool_edges(tb, sb)
+                err_set, pass_set = (cc[0], cc[1]) if tgt == te else (cc[1], cc[0])
+                found = (sb, err_set, pass_set, t)
+    if found is None:
+        return ctx.lost("C06-e", "the comparison of the generalised dod against a constant that controls the Err", tb.path)
+    sb, err_set, pass_set, t = found
+    ok = {NEG, ZERO} <= err_set and not ({NEG, ZERO} & pass_set) and POS not in err_set
+    ctx.ob("C06-e", "rejection test: classes to Err %s, classes accepted %s" % (sorted(err_set), sorted(pass_set)), ok, tb.path, "zero-dod-rejected",
+           where=pat.where(t), detail="a proper subset with generalised dod exactly 0 (classes accepted: %s) passes the builder; sample_edge then divides "
+                                      "J(g∖e) by ω(g∖e) = 0 and the cumulative comparison is made against inf/NaN" % sorted(pass_set))
+
+
+def rule_f(ctx, R, sector, scan_site):
+    """No panic whose condition is computed from a coordinate's VALUE (u = 0.0, u close to 1, …) on the way to the selection."""
+    from ..flow import Flow
+    ctx.rule("C06-f", "in the sampling entry, sample, the sector routine and the scan no panicking block is control-dependent on a condition "
+                      "computed (explicit data flow) from hypercube coordinate values — except the scan's exhaustion panic, decided by C06-a")
+    f = ctx.facts
+    try:
+        s, entry, rd, read = R.sample(), R.xspace_entry(), R.reader_adt(), R.read_fn()
+    except RoleLost as e:
+        return ctx.lost("C06-f", str(e))
+    sbi, st, scan, uidx = scan_site
+    fl = Flow(f, R, reader_adt=rd["adt"], read_fn=read, follow_control=False, ignore_len=True)
+
+    def slice_params(b):
+        out = []
+        for l in b.locals[1:b.arg_count + 1]:
+            t1 = f.ty(l["ty"]) or {}
+            t2 = f.ty(t1.get("t", "")) or {}
+            if t1.get("k") == "ref" and t2.get("k") == "slice":
+                out.append(l["i"])
+        return out
+    n = 0
+    for b, coord_params in ((entry, slice_params(entry)), (s, slice_params(s)), (sector, []), (scan, [uidx + 1])):
+        ctx.fn(b.path)
+        dd = fl.deps_of(b)
+        tcd = cfg.transitive_control_deps(b, acyclic=True)
+        v = Vals(b)
+        panics = list(pat.panic_blocks(b))
+        for bi, blk in enumerate(b.blocks):
+            if not blk["cleanup"] and blk["term"]["k"] == "assert":
+                panics.append(bi)
+        skip = set()
+        if b is scan:
+            heads = loop_next_sites(scan, v)
+            if len(heads) == 1:
+                skip = scan.reachable_from(heads[0][3])   # behind the exhaustion edge: C06-a
+        for pb in panics:
+            if pb in skip:
+                continue
+            n += 1
+            conds = []
+            if b.blocks[pb]["term"]["k"] == "assert":
+                co = b.blocks[pb]["term"]["cond"]
+                if co["k"] in ("copy", "move"):
+                    conds.append((pb, co["place"]["l"]))
+            for (sb, tgt) in tcd[pb]:
+                t = b.blocks[sb]["term"]
+                if t["k"] == "switch" and t["discr"]["k"] in ("copy", "move"):
+                    conds.append((sb, t["discr"]["place"]["l"]))
+            for sb, dl in conds:
+                srcs = dd["close"](("n", dl, None))
+                tainted = sorted(set(str(x[:2]) for x in srcs if x[0] == "site" or (x[0] == "param" and x[1] in coord_params)))
+                if tainted:
+                    ctx.ob("C06-f", "panic independent of coordinate values", False, b.path, "value-dependent-panic",
+                           where=pat.where(b.blocks[pb]["term"]),
+                           detail="the panic at %s is guarded by a condition (%s) computed from coordinate values %s: some u in [0,1) panics before / "
+                                  "instead of selecting an edge" % (pat.where(b.blocks[pb]["term"]), pat.where(b.blocks[sb]["term"]), tainted))
+    ctx.ob("C06-f", "bodies examined on the selection path: 4 (entry, sample, sector, scan); explicit panic / assertion sites outside the scan's "
+                    "exhaustion region: %d" % n, True, sector.path, "panic-scan")
